@@ -15,6 +15,7 @@ from ..hlib import libinfo
 
 OPS = ['+', '-', '*', '/', '%', '**']
 KINDS = ['int', 'bool', 'float', 'big', 'str', 'null', 'dt']
+CMP_OPS = ['==', '!=', '<', '<=', '>', '>=']
 
 CORE_OP = '''
 import datetime
@@ -27,6 +28,7 @@ FLOATS = [0.0, -0.0, 0.5, -8.0, 1e308, 1000.0, 5e-324, float('inf'), float('-inf
 BIGS = [10 ** 400, -(10 ** 400), 2 ** 70, -(2 ** 1024)]
 DTS = [datetime.datetime(2024, 1, 2, 3, 4, 5), datetime.date(2024, 1, 2), datetime.datetime(9999, 12, 31, 23, 59, 59),
        datetime.datetime(1, 1, 1)]
+ARRS = [[], [1], ['id', 7], ['id', 'n/a'], [None, 1], [[1], 'a'], [True, 1], [1.5, 'x'], {{'a': 1}}, {{'a': 'x'}}, [{{'k': 1}}], [{{'k': 'v'}}]]
 
 
 def _pick(pool, i):
@@ -43,6 +45,8 @@ def _val(kind, x):
         return _pick(BIGS, x)
     if kind == 'dt':
         return _pick(DTS, x)
+    if kind == 'arr':
+        return _pick(ARRS, x)
     if kind == 'null':
         return None
     return x
@@ -63,7 +67,7 @@ def core_op(a, b):
     return True, {{}}
 '''
 
-PTYPE = {'int': 'int', 'bool': 'bool', 'str': 'str', 'float': 'int', 'big': 'int', 'dt': 'int', 'null': 'int'}
+PTYPE = {'int': 'int', 'bool': 'bool', 'str': 'str', 'float': 'int', 'big': 'int', 'dt': 'int', 'null': 'int', 'arr': 'int'}
 
 
 def _pre(kind, name, op, side):
@@ -71,6 +75,8 @@ def _pre(kind, name, op, side):
         return [f'0 <= {name} < 12']
     if kind in ('big', 'dt'):
         return [f'0 <= {name} < 4']
+    if kind == 'arr':
+        return [f'0 <= {name} < 12']
     if kind == 'null':
         return [f'{name} == 0']
     if kind == 'str':
@@ -274,6 +280,13 @@ def plan(tier, seed, workdir):
                 body += hgen.harness('op', f'a: {PTYPE[ka]}, b: {PTYPE[kb]}', pre, core_call='core_op(a, b)')
                 path = hgen.write_module(workdir, f'c05_op_{opn}_{ka}_{kb}', body)
                 hgen.ch_tasks(p, path, 'op', t_op, family='operator', expr=expr, kinds=[ka, kb])
+    for op in CMP_OPS + ['+']:
+        for ka, kb in (('arr', 'arr'), ('arr', 'int'), ('str', 'arr'), ('dt', 'arr'), ('arr', 'float')):
+            expr = f'aa {op} bb'
+            body = CORE_OP.format(expr=expr, ka=ka, kb=kb)
+            body += hgen.harness('op', f'a: {PTYPE[ka]}, b: {PTYPE[kb]}', _pre(ka, 'a', op, 'l') + _pre(kb, 'b', op, 'r'), core_call='core_op(a, b)')
+            path = hgen.write_module(workdir, f'c05_cmp_{CMP_OPS.index(op) if op in CMP_OPS else 9}_{ka}_{kb}', body)
+            hgen.ch_tasks(p, path, 'op', t_op, family='comparison / concatenation with containers', expr=expr, kinds=[ka, kb])
     for ka in KINDS:
         body = CORE_OP.format(expr='-aa + bb', ka=ka, kb='int')
         body += hgen.harness('op', f'a: {PTYPE[ka]}, b: int', _pre(ka, 'a', '-', 'l'), core_call='core_op(a, b)')
